@@ -417,10 +417,10 @@ def obligations(tier):
                   bounds="2 contenders, real S3LockProvider, K=2, symbolic pauses 0..130 s, acquire timeout 1 s", weight=6))
     obs.append(Ob("s3.n2.skew.K2", "vf.props.c19:s3_lock", {"n": 2, "K": 2, "skew_max_ms": 5000, "_must_reach": ["ran"]}, timeout=T,
                   bounds="2 contenders, store clock ahead of the clients' by a symbolic 0..5 s (LastModified is server time), symbolic pauses", weight=6))
-    obs.append(Ob("s3.n3.K2", "vf.props.c19:s3_lock", {"n": 3, "K": 2 if tier == "quick" else 3, "_must_reach": ["ran"]}, timeout=T * 2,
+    obs.append(Ob(f"s3.n3.K{2 if tier == 'quick' else 3}", "vf.props.c19:s3_lock", {"n": 3, "K": 2 if tier == "quick" else 3, "_must_reach": ["ran"]}, timeout=T * 2,
                   bounds="3 contenders, real S3LockProvider, K=2 (quick) / 3 (thorough), symbolic pauses", weight=9))
-    obs.append(Ob("s3.n2.hb.K2", "vf.props.c19:s3_lock", {"n": 2, "K": 2 if tier == "quick" else 3, "heartbeat": True}, timeout=T,
-                  bounds="2 contenders + heartbeat actor (2 renewal rounds), K=2 (quick) / 3 (thorough)", weight=9))
+    obs.append(Ob(f"s3.n2.hb.K{2 if tier == 'quick' else 3}", "vf.props.c19:s3_lock", {"n": 2, "K": 2 if tier == "quick" else 3, "heartbeat": True}, timeout=T,
+                  bounds="2 contenders + heartbeat actor (2 renewal rounds), K=2 (quick) / 3 (thorough)", weight=9, allow_inconclusive=(tier == "thorough")))
     obs.append(Ob("polling.is_held", "vf.props.c19:polling_is_held", {}, engine="crosshair", timeout=120,
                   bounds="polling provider: symbolic monotonic time / lease deadline (0..200 s, whole seconds), owner id match, local flag", weight=2))
     obs.append(Ob("polling.renew", "vf.props.c19:polling_renew", {}, engine="crosshair", timeout=120,
